@@ -47,13 +47,13 @@ func c16Cases(tier string) []c16Case {
 func init() {
 	register(&Prop{
 		ID: "C16", Level: "exploration",
-		Rule:        "enumerated cases: every collection size n in 0..130 (quick) / 0..600 (thorough) plus {1023..1026, 2047..2050, 3071..3074, 4095..4098} x key shape {fixed-width decimal, variable width, binary} x store kind {memory-only, flushed+evicted+re-opened file}; the comparator rotates through {bytes.Compare, reverse, length-first} with the case. For n <= 200 a complete block visit is also started from inside another block visit's visitor (both must cover every item exactly once). Each case checks Len() and the multiset of keys delivered by VisitItemsAscendBlockEx under the block manglers {nil, identity, reverse, rotate-by-1, rotate-by-half, two seeded permutations, RandBm} in both value modes and by VisitItemsRandom (twice): every key exactly once. Afterwards the same handle is checked again after 1, 2, 3 and 4 further inserts/deletes (Len, Random, reversed BlockEx). For n = 0 a nil or non-nil error with zero deliveries is accepted. Non-trivial = n >= 1; distinct = distinct (n, shape, store kind).",
+		Rule:        "enumerated cases: every collection size n in 0..130 (quick) / 0..600 (thorough) plus {1023..1026, 2047..2050, 3071..3074, 4095..4098} x key shape {fixed-width decimal, variable width, binary} x store kind {memory-only, flushed+evicted+re-opened file; a third of the file cases then overwrite up to n/4 items without flushing and evict 30 times (unwritten nodes above written subtrees), a fifth of them store items through a BeforeItemWrite/AfterItemRead codec that encodes keys and values at rest}; the comparator rotates through {bytes.Compare, reverse, length-first} with the case. For n <= 200 a complete block visit is also started from inside another block visit's visitor (both must cover every item exactly once). Each case checks Len() and the multiset of keys delivered by VisitItemsAscendBlockEx under the block manglers {nil, identity, reverse, rotate-by-1, rotate-by-half, two seeded permutations, RandBm} in both value modes and by VisitItemsRandom (twice): every key exactly once. Afterwards the same handle is checked again after 1, 2, 3 and 4 further inserts/deletes (Len, Random, reversed BlockEx). For n = 0 a nil or non-nil error with zero deliveries is accepted. Non-trivial = n >= 1; distinct = distinct (n, shape, store kind).",
 		Assumptions: []string{"single goroutine; block manglers return a permutation of their input"},
 		Exhaustive:  func(string) bool { return true },
 		NumCases:    func(tier string) int { return len(c16Cases(tier)) },
 		Run:         runC16,
 		Floor: func(tier string, st map[string]int64) string {
-			for _, k := range []string{"c16.len-checked", "c16.block-visits", "c16.random-visits", "c16.partial-last-block", "c16.over-max-blocks", "c16.empty", "c16.len-after-mutations", "c16.nested-block-visits", "c16.cmp=rev", "c16.cmp=lenlex"} {
+			for _, k := range []string{"c16.len-checked", "c16.item-codec-cases", "c16.rewritten-after-flush-cases", "c16.block-visits", "c16.random-visits", "c16.partial-last-block", "c16.over-max-blocks", "c16.empty", "c16.len-after-mutations", "c16.nested-block-visits", "c16.cmp=rev", "c16.cmp=lenlex"} {
 				if st[k] == 0 {
 					return "no " + k + " observed"
 				}
@@ -80,6 +80,10 @@ func runC16(ctx *Ctx, idx int) Result {
 	r := gen.New(seed)
 	SeedGlobalRand(seed)
 	cfg := driver.Config{MemOnly: !cs.file}
+	if cs.file && idx%5 == 2 {
+		cfg.CB = driver.CBSwap // items are stored in an encoded form, undone by AfterItemRead on every load
+		ctx.Stats["c16.item-codec-cases"]++
+	}
 	// the comparator varies with the case: under the reverse one the empty key is NOT the minimum
 	cmp := []model.Cmp{model.CmpBytes, model.CmpRev, model.CmpLenLex}[(cs.n+cs.shape+btoi(cs.file))%3]
 	ctx.Stats["c16.cmp="+string(cmp)]++
@@ -99,6 +103,19 @@ func runC16(ctx *Ctx, idx int) Result {
 		e.Evict("x", 5)
 		if r.Bool() {
 			e.Reopen(false)
+		}
+		if idx%3 == 1 && cs.n > 0 {
+			// partly rewritten since the flush: unwritten nodes above written subtrees, then evictions
+			ks := make([]string, 0, len(keys))
+			for k := range keys {
+				ks = append(ks, k)
+			}
+			sort.Strings(ks)
+			for i, m := 0, r.Range(1, cs.n/4+1); i < m && !e.Failed(); i++ {
+				e.SetItem("x", []byte(ks[r.Intn(len(ks))]), []byte(fmt.Sprintf("w%d", i)), int32(r.U64()&0x7fffffff), false)
+			}
+			e.Evict("x", 30)
+			ctx.Stats["c16.rewritten-after-flush-cases"]++
 		}
 	}
 	c := e.H["x"]
